@@ -3,6 +3,7 @@ package seq
 import (
 	"fmt"
 	"math"
+	"strings"
 
 	age "github.com/craterdog/go-collection-framework/v4/agent"
 	col "github.com/craterdog/go-collection-framework/v4/collection"
@@ -460,4 +461,57 @@ func RunC17Snapshot(c *core.Ctx, kind string) {
 	if pan {
 		fail("panicked", "panicked: "+msg)
 	}
+}
+
+// RunC17Large: random moves on an iterator over a long list (the exhaustive
+// engine stops at four values): slots around the ends, the middle and far
+// outside, on a list of up to 3000 values.
+func RunC17Large(c *core.Ctx) {
+	r := c.Rng
+	n := []int{5, 17, 64, 255, 1000, 3000}[r.Intn(6)]
+	vals := make([]int, n)
+	for i := range vals {
+		vals[i] = 10 + i
+	}
+	it := col.List[int](Notation).MakeFromArray(vals).GetIterator()
+	cur := &cursor{vals: vals}
+	var trace []string
+	for step := 0; step < 120; step++ {
+		var d string
+		name := ""
+		switch k := r.Intn(8); {
+		case k < 4:
+			name = moveName(k, n)
+			d = applyMove(it, cur, k)
+		default:
+			// ToSlot with an argument drawn near an interesting place
+			arg := []int{0, 1, -1, n, -n, n + 1, -n - 1, n / 2, -(n / 2), n - 1, 2 - n, 3 * n, -3 * n}[r.Intn(13)] + r.Range(-1, 1)
+			name = fmt.Sprintf("ToSlot(%d)", arg)
+			it.ToSlot(arg)
+			switch {
+			case arg > n:
+				cur.slot = n
+			case arg >= 0:
+				cur.slot = arg
+			case arg >= -n:
+				cur.slot = n + 1 + arg
+			default:
+				if g := it.GetSlot(); g == 0 || g == 1 {
+					cur.slot = g
+				} else {
+					d = fmt.Sprintf("ToSlot(%d) on size %d left slot %d", arg, n, g)
+				}
+			}
+			if d == "" {
+				d = checkCursor(it, cur)
+			}
+		}
+		trace = append(trace, name)
+		if d != "" {
+			c.Violation("iterator.large/"+strings.SplitN(name, "(", 2)[0], d, map[string]any{"size": n, "moves": trace})
+			return
+		}
+	}
+	c.Cover(fmt.Sprintf("iterator.large.%d", n))
+	c.Distinct(core.Mix(0x17a, uint64(n), core.HashStr(strings.Join(trace, ","))))
 }
